@@ -489,7 +489,7 @@ func (packet *PacketHandler) readData(readLength bool) error {
 	if packet.dataLength < 0 {
 		return ErrInvalidPacketLength
 	}
-	packet.descriptionBuf.Grow(packet.dataLength)
+	// the buffer grows as the data arrives: the length is only what the peer declares
 	packet.logger.Debugln("Read data")
 	nn, err := io.CopyN(packet.descriptionBuf, packet.reader, int64(packet.dataLength))
 	return base.CheckReadWrite(int(nn), packet.dataLength, err)
